@@ -96,13 +96,23 @@ pub fn wave_dump(bytes: Vec<u8>, full: bool) -> String {
     let o = LoadOptions { multi_thread: false, remove_scopes_with_empty_name: false };
     let header = match viewers::read_header(std::io::Cursor::new(bytes), &o) {
         Ok(h) => h,
-        Err(WellenError::FailedToLoad(_, _)) => return "err".to_string(),
-        Err(WellenError::UnknownFileFormat) => return "err".to_string(),
-        Err(WellenError::Io(_)) => return "err".to_string(),
+        Err(e) => {
+            if std::env::var("WVH_DEBUG").is_ok() {
+                eprintln!("header error: {e:?}");
+            }
+            return match e {
+                WellenError::FailedToLoad(_, _) | WellenError::UnknownFileFormat | WellenError::Io(_) => "err".to_string(),
+            };
+        }
     };
     let body = match viewers::read_body(header.body, &header.hierarchy, None) {
         Ok(b) => b,
-        Err(_) => return "err".to_string(),
+        Err(e) => {
+            if std::env::var("WVH_DEBUG").is_ok() {
+                eprintln!("body error: {e:?}");
+            }
+            return "err".to_string();
+        }
     };
     let h = header.hierarchy;
     let mut refs: Vec<SignalRef> = h.iter_vars().map(|v| v.signal_ref()).collect();
